@@ -311,60 +311,67 @@ theorem wfList_map {α : Type} (inDir inArg : Bool) (f : α → TNode) (h : ∀ 
   | [] => by simp [TNode.wfList]
   | x :: l => by simp [TNode.wfList, h x, wfList_map inDir inArg f h l]
 
-mutual
-theorem valueTree_wf (inDir : Bool) : ∀ (v : Value), (valueTree v).wf inDir true = true
-  | .list vs lc => by simp [valueTree, TNode.wf, NodeView.isDirective, NodeView.isArgument, valuesTrees_wf inDir vs]
-  | .obj fs lc => by simp [valueTree, TNode.wf, NodeView.isDirective, NodeView.isArgument, objFieldsTrees_wf inDir fs]
-  | .var .. | .int .. | .float .. | .str .. | .bool .. | .enum .. => by
-    simp [valueTree, TNode.wf, TNode.wfList, NodeView.isDirective, NodeView.isArgument]
-theorem valuesTrees_wf (inDir : Bool) : ∀ (vs : List Value), TNode.wfList inDir true (valuesTrees vs) = true
-  | [] => by simp [valuesTrees, TNode.wfList]
-  | v :: vs => by simp [valuesTrees, TNode.wfList, valueTree_wf inDir v, valuesTrees_wf inDir vs]
-theorem objFieldsTrees_wf (inDir : Bool) : ∀ (fs : List ObjField), TNode.wfList inDir true (objFieldsTrees fs) = true
-  | [] => by simp [objFieldsTrees, TNode.wfList]
-  | .mk nm v lc :: fs => by
-    simp [objFieldsTrees, TNode.wfList, TNode.wf, NodeView.isDirective, NodeView.isArgument, valueTree_wf inDir v,
-      objFieldsTrees_wf inDir fs]
-end
+theorem nameTree_wf (a b : Bool) (n : Name) : (nameTree n).wf a b = true := by
+  simp [nameTree, TNode.wf, TNode.wfList, NodeView.isDirective, NodeView.isArgument]
 
--- a value outside an Argument (a variable's default value)
+theorem optNameTrees_wf (a b : Bool) : ∀ (o : Option Name), TNode.wfList a b (optNameTrees o) = true
+  | none => by simp [optNameTrees, TNode.wfList]
+  | some n => by simp [optNameTrees, TNode.wfList, nameTree_wf]
+
+theorem typeTree_wf (a b : Bool) : ∀ (t : TypeRef), (typeTree t).wf a b = true
+  | .named _ lc => by simp [typeTree, TNode.wf, TNode.wfList, NodeView.isDirective, NodeView.isArgument]
+  | .list t lc => by simp [typeTree, TNode.wf, TNode.wfList, NodeView.isDirective, NodeView.isArgument, typeTree_wf a b t]
+  | .nonNull t lc => by simp [typeTree, TNode.wf, TNode.wfList, NodeView.isDirective, NodeView.isArgument, typeTree_wf a b t]
+
+theorem optTypeTrees_wf (a b : Bool) : ∀ (o : Option TypeRef), TNode.wfList a b (optTypeTrees o) = true
+  | none => by simp [optTypeTrees, TNode.wfList]
+  | some t => by simp [optTypeTrees, TNode.wfList, typeTree_wf]
+
+theorem variableTree_wf (a b : Bool) (lc : Loc) : (variableTree lc).wf a b = true := by
+  simp [variableTree, TNode.wf, TNode.wfList, NodeView.isDirective, NodeView.isArgument]
+
 mutual
-theorem valueTree_wf' : ∀ (v : Value), (valueTree v).wf false false = true
-  | .list vs lc => by simp [valueTree, TNode.wf, NodeView.isDirective, NodeView.isArgument, valuesTrees_wf' vs]
-  | .obj fs lc => by simp [valueTree, TNode.wf, NodeView.isDirective, NodeView.isArgument, objFieldsTrees_wf' fs]
-  | .var .. | .int .. | .float .. | .str .. | .bool .. | .enum .. => by
+theorem valueTree_wf (inDir inArg : Bool) : ∀ (v : Value), (valueTree v).wf inDir inArg = true
+  | .list vs lc => by simp [valueTree, TNode.wf, NodeView.isDirective, NodeView.isArgument, valuesTrees_wf inDir inArg vs]
+  | .obj fs lc => by simp [valueTree, TNode.wf, NodeView.isDirective, NodeView.isArgument, objFieldsTrees_wf inDir inArg fs]
+  | .var _ lc => by simp [valueTree, variableTree_wf]
+  | .int .. | .float .. | .str .. | .bool .. | .enum .. => by
     simp [valueTree, TNode.wf, TNode.wfList, NodeView.isDirective, NodeView.isArgument]
-theorem valuesTrees_wf' : ∀ (vs : List Value), TNode.wfList false false (valuesTrees vs) = true
+theorem valuesTrees_wf (inDir inArg : Bool) : ∀ (vs : List Value), TNode.wfList inDir inArg (valuesTrees vs) = true
   | [] => by simp [valuesTrees, TNode.wfList]
-  | v :: vs => by simp [valuesTrees, TNode.wfList, valueTree_wf' v, valuesTrees_wf' vs]
-theorem objFieldsTrees_wf' : ∀ (fs : List ObjField), TNode.wfList false false (objFieldsTrees fs) = true
+  | v :: vs => by simp [valuesTrees, TNode.wfList, valueTree_wf inDir inArg v, valuesTrees_wf inDir inArg vs]
+theorem objFieldsTrees_wf (inDir inArg : Bool) : ∀ (fs : List ObjField), TNode.wfList inDir inArg (objFieldsTrees fs) = true
   | [] => by simp [objFieldsTrees, TNode.wfList]
   | .mk nm v lc :: fs => by
-    simp [objFieldsTrees, TNode.wfList, TNode.wf, NodeView.isDirective, NodeView.isArgument, valueTree_wf' v,
-      objFieldsTrees_wf' fs]
+    simp [objFieldsTrees, TNode.wfList, TNode.wf, NodeView.isDirective, NodeView.isArgument, nameTree_wf,
+      valueTree_wf inDir inArg v, objFieldsTrees_wf inDir inArg fs]
 end
 
 theorem argTree_wf (inDir : Bool) (a : Argument) : (argTree a).wf inDir false = true := by
-  simp [argTree, TNode.wf, TNode.wfList, NodeView.isDirective, NodeView.isArgument, valueTree_wf inDir a.value]
+  simp [argTree, TNode.wf, TNode.wfList, NodeView.isDirective, NodeView.isArgument, nameTree_wf, valueTree_wf inDir true a.value]
 
 theorem dirTree_wf (d : Directive) : (dirTree d).wf false false = true := by
-  simp [dirTree, TNode.wf, NodeView.isDirective, NodeView.isArgument, wfList_map true false argTree (argTree_wf true) d.args]
+  simp [dirTree, TNode.wf, TNode.wfList, NodeView.isDirective, NodeView.isArgument, nameTree_wf,
+    wfList_map true false argTree (argTree_wf true) d.args]
 
 theorem varDefTree_wf (v : VarDef) : (varDefTree v).wf false false = true := by
   cases hd : v.default with
-  | none => simp [varDefTree, hd, TNode.wf, TNode.wfList, NodeView.isDirective, NodeView.isArgument]
-  | some dv => simp [varDefTree, hd, TNode.wf, TNode.wfList, NodeView.isDirective, NodeView.isArgument, valueTree_wf' dv]
+  | none => simp [varDefTree, hd, TNode.wf, TNode.wfList, NodeView.isDirective, NodeView.isArgument, nameTree_wf,
+      wfList_append, optTypeTrees_wf]
+  | some dv => simp [varDefTree, hd, TNode.wf, TNode.wfList, NodeView.isDirective, NodeView.isArgument, nameTree_wf,
+      wfList_append, optTypeTrees_wf, valueTree_wf false false dv]
 
 mutual
 theorem selTree_wf : ∀ (x : Selection), (selTree x).wf false false = true
-  | .field _ nm args dirs sel lc => by
-    simp [selTree, TNode.wf, NodeView.isDirective, NodeView.isArgument, wfList_append,
-      wfList_map false false argTree (argTree_wf false) args, wfList_map false false dirTree dirTree_wf dirs,
-      optSetTrees_wf sel]
-  | .spread _ dirs lc => by
-    simp [selTree, TNode.wf, NodeView.isDirective, NodeView.isArgument, wfList_map false false dirTree dirTree_wf dirs]
+  | .field al nm args dirs sel lc => by
+    simp [selTree, TNode.wf, TNode.wfList, NodeView.isDirective, NodeView.isArgument, wfList_append, optNameTrees_wf,
+      nameTree_wf, wfList_map false false argTree (argTree_wf false) args,
+      wfList_map false false dirTree dirTree_wf dirs, optSetTrees_wf sel]
+  | .spread nm dirs lc => by
+    simp [selTree, TNode.wf, TNode.wfList, NodeView.isDirective, NodeView.isArgument, nameTree_wf,
+      wfList_map false false dirTree dirTree_wf dirs]
   | .inline tc dirs ss lc => by
-    simp [selTree, TNode.wf, TNode.wfList, NodeView.isDirective, NodeView.isArgument, wfList_append,
+    simp [selTree, TNode.wf, TNode.wfList, NodeView.isDirective, NodeView.isArgument, wfList_append, optTypeTrees_wf,
       wfList_map false false dirTree dirTree_wf dirs, setTree_wf ss]
 theorem setTree_wf : ∀ (ss : SelectionSet), (setTree ss).wf false false = true
   | .mk sels lc => by simp [setTree, TNode.wf, NodeView.isDirective, NodeView.isArgument, selsTrees_wf sels]
@@ -379,93 +386,154 @@ end
 theorem defTree_wf (df : Definition) : (defTree df).wf false false = true := by
   cases df with
   | operation op nm vars dirs sel lc =>
-    simp [defTree, TNode.wf, TNode.wfList, NodeView.isDirective, NodeView.isArgument, wfList_append,
+    simp [defTree, TNode.wf, TNode.wfList, NodeView.isDirective, NodeView.isArgument, wfList_append, optNameTrees_wf,
       wfList_map false false varDefTree varDefTree_wf vars, wfList_map false false dirTree dirTree_wf dirs, setTree_wf sel]
   | fragment nm tc dirs sel lc =>
-    simp [defTree, TNode.wf, TNode.wfList, NodeView.isDirective, NodeView.isArgument, wfList_append,
-      wfList_map false false dirTree dirTree_wf dirs, setTree_wf sel]
+    simp [defTree, TNode.wf, TNode.wfList, NodeView.isDirective, NodeView.isArgument, wfList_append, nameTree_wf,
+      typeTree_wf, wfList_map false false dirTree dirTree_wf dirs, setTree_wf sel]
   | _ => simp [defTree, TNode.wf, TNode.wfList, NodeView.isDirective, NodeView.isArgument]
 
 theorem docTree_wf (d : Document) : (docTree d).wf false false = true := by
   simp [docTree, TNode.wf, NodeView.isDirective, NodeView.isArgument, wfList_map false false defTree defTree_wf d.defs]
 
-/-! ## `ctxRecs` of a document tree is `tiRecords` -/
+/-! ## `ctxRecs` of a document tree, without the Name / type-reference nodes, is `tiRecords` -/
+
+/-- drop the records of Name / Named / List / NonNull nodes (S does not list them) -/
+def obs (l : List TIRec) : List TIRec := l.filter (fun r => !nameOrTypeKind r.kind)
+
+theorem obs_append (a b : List TIRec) : obs (a ++ b) = obs a ++ obs b := by simp [obs]
+theorem obs_nil : obs [] = [] := rfl
+
+theorem obs_flatMap {α : Type} (f : α → List TIRec) : ∀ (l : List α), obs (l.flatMap f) = l.flatMap (fun x => obs (f x))
+  | [] => rfl
+  | x :: l => by simp [List.flatMap_cons, obs_append, obs_flatMap f l]
+
+theorem obs_name (s : Schema) (st : TIState) (n : Name) : obs (ctxRecs s noSkip (nameTree n) st) = [] := by
+  simp [nameTree, ctxRecs, ctxRecsList, noSkip, obs, nameOrTypeKind]
+
+theorem obs_optName (s : Schema) (st : TIState) : ∀ (o : Option Name), obs (ctxRecsList s noSkip (optNameTrees o) st) = []
+  | none => by simp [optNameTrees, ctxRecsList, obs]
+  | some n => by simp [optNameTrees, ctxRecsList, obs_append, obs_name, obs_nil]
+
+theorem obs_type (s : Schema) : ∀ (t : TypeRef) (st : TIState), obs (ctxRecs s noSkip (typeTree t) st) = []
+  | .named _ lc, st => by simp [typeTree, ctxRecs, ctxRecsList, noSkip, obs, nameOrTypeKind, ctxStep]
+  | .list t lc, st => by
+    have ih := obs_type s t st
+    simp [typeTree, ctxRecs, ctxRecsList, noSkip, ctxStep] at ih ⊢
+    simpa [obs, nameOrTypeKind] using ih
+  | .nonNull t lc, st => by
+    have ih := obs_type s t st
+    simp [typeTree, ctxRecs, ctxRecsList, noSkip, ctxStep] at ih ⊢
+    simpa [obs, nameOrTypeKind] using ih
+
+theorem obs_optType (s : Schema) (st : TIState) : ∀ (o : Option TypeRef), obs (ctxRecsList s noSkip (optTypeTrees o) st) = []
+  | none => by simp [optTypeTrees, ctxRecsList, obs]
+  | some t => by simp [optTypeTrees, ctxRecsList, obs_append, obs_type, obs_nil]
+
+theorem obs_variable (s : Schema) (st : TIState) (lc : Loc) :
+    obs (ctxRecs s noSkip (variableTree lc) st) = [⟨"Variable", lc, st⟩] := by
+  simp [variableTree, ctxRecs, ctxRecsList, noSkip, obs, nameOrTypeKind, ctxStep]
+
+/-- `obs` of a node's records: the node's own record (if observed) and `obs` of the children's -/
+theorem obs_node (s : Schema) (kind : String) (loc : Loc) (nv : NodeView) (cs : List TNode) (st : TIState)
+    (hk : nameOrTypeKind kind = false) :
+    obs (ctxRecs s noSkip (.mk kind loc nv cs) st) =
+      ⟨kind, loc, ctxStep s st nv⟩ :: obs (ctxRecsList s noSkip cs (ctxStep s st nv)) := by
+  simp [ctxRecs, noSkip, obs, hk]
+
+theorem obs_list_nil (s : Schema) (st : TIState) : obs (ctxRecsList s noSkip [] st) = [] := by
+  simp [ctxRecsList, obs]
+
+theorem obs_list_cons (s : Schema) (n : TNode) (ns : List TNode) (st : TIState) :
+    obs (ctxRecsList s noSkip (n :: ns) st) = obs (ctxRecs s noSkip n st) ++ obs (ctxRecsList s noSkip ns st) := by
+  simp [ctxRecsList, obs_append]
+
+theorem obs_list_append (s : Schema) (a b : List TNode) (st : TIState) :
+    obs (ctxRecsList s noSkip (a ++ b) st) = obs (ctxRecsList s noSkip a st) ++ obs (ctxRecsList s noSkip b st) := by
+  simp [ctxRecsList_append, obs_append]
+
+theorem obs_list_map {α : Type} (s : Schema) (f : α → TNode) (l : List α) (st : TIState) :
+    obs (ctxRecsList s noSkip (l.map f) st) = l.flatMap (fun x => obs (ctxRecs s noSkip (f x) st)) := by
+  rw [ctxRecsList_map, obs_flatMap]
 
 mutual
-theorem ctxRecs_value (s : Schema) : ∀ (v : Value) (st : TIState), ctxRecs s noSkip (valueTree v) st = valueRecs s st v
+theorem ctxRecs_value (s : Schema) : ∀ (v : Value) (st : TIState), obs (ctxRecs s noSkip (valueTree v) st) = valueRecs s st v
   | .list vs lc, st => by
-    simp [valueTree, ctxRecs, noSkip, valueRecs, ctxStep, ctxRecs_values s vs]
+    simp [valueTree, obs_node, nameOrTypeKind, valueRecs, ctxStep, ctxRecs_values s vs]
   | .obj fs lc, st => by
-    simp [valueTree, ctxRecs, noSkip, valueRecs, ctxStep, ctxRecs_objFields s fs]
-  | .var .., st | .int .., st | .float .., st | .str .., st | .bool .., st | .enum .., st => by
-    simp [valueTree, ctxRecs, ctxRecsList, noSkip, valueRecs, ctxStep]
+    simp [valueTree, obs_node, nameOrTypeKind, valueRecs, ctxStep, ctxRecs_objFields s fs]
+  | .var _ lc, st => by simp [valueTree, obs_variable, valueRecs, valueKind, Value.loc]
+  | .int .., st | .float .., st | .str .., st | .bool .., st | .enum .., st => by
+    simp [valueTree, obs_node, nameOrTypeKind, obs_list_nil, valueRecs, valueKind, Value.loc, ctxStep]
 theorem ctxRecs_values (s : Schema) : ∀ (vs : List Value) (st : TIState),
-    ctxRecsList s noSkip (valuesTrees vs) st = valuesRecs s st vs
-  | [], _ => by simp [valuesTrees, ctxRecsList, valuesRecs]
-  | v :: vs, st => by simp [valuesTrees, ctxRecsList, valuesRecs, ctxRecs_value s v, ctxRecs_values s vs]
+    obs (ctxRecsList s noSkip (valuesTrees vs) st) = valuesRecs s st vs
+  | [], _ => by simp [valuesTrees, ctxRecsList, valuesRecs, obs_nil]
+  | v :: vs, st => by simp [valuesTrees, obs_list_cons, valuesRecs, ctxRecs_value s v, ctxRecs_values s vs]
 theorem ctxRecs_objFields (s : Schema) : ∀ (fs : List ObjField) (st : TIState),
-    ctxRecsList s noSkip (objFieldsTrees fs) st = objFieldsRecs s st fs
-  | [], _ => by simp [objFieldsTrees, ctxRecsList, objFieldsRecs]
+    obs (ctxRecsList s noSkip (objFieldsTrees fs) st) = objFieldsRecs s st fs
+  | [], _ => by simp [objFieldsTrees, ctxRecsList, objFieldsRecs, obs_nil]
   | .mk nm v lc :: fs, st => by
-    simp [objFieldsTrees, ctxRecsList, ctxRecs, noSkip, objFieldsRecs, ctxStep, ctxRecs_value s v, ctxRecs_objFields s fs]
+    simp [objFieldsTrees, obs_list_cons, obs_node, nameOrTypeKind, obs_name, obs_list_nil, objFieldsRecs, ctxStep,
+      ctxRecs_value s v, ctxRecs_objFields s fs]
 end
 
-theorem ctxRecs_arg (s : Schema) (st : TIState) (a : Argument) : ctxRecs s noSkip (argTree a) st = argRecs s st a := by
-  simp [argTree, ctxRecs, ctxRecsList, noSkip, argRecs, ctxStep, ctxRecs_value]
+theorem ctxRecs_arg (s : Schema) (st : TIState) (a : Argument) : obs (ctxRecs s noSkip (argTree a) st) = argRecs s st a := by
+  simp [argTree, obs_node, nameOrTypeKind, obs_list_cons, obs_name, obs_list_nil, argRecs, ctxStep, ctxRecs_value]
 
-theorem ctxRecs_dir (s : Schema) (st : TIState) (d : Directive) : ctxRecs s noSkip (dirTree d) st = dirRecs s st d := by
-  simp [dirTree, ctxRecs, noSkip, dirRecs, ctxStep, ctxRecsList_map, ctxRecs_arg]
+theorem ctxRecs_dir (s : Schema) (st : TIState) (d : Directive) : obs (ctxRecs s noSkip (dirTree d) st) = dirRecs s st d := by
+  simp [dirTree, obs_node, nameOrTypeKind, obs_list_cons, obs_name, obs_list_map, dirRecs, ctxStep, ctxRecs_arg]
 
 theorem ctxRecs_varDef (s : Schema) (st : TIState) (v : VarDef) :
-    ctxRecs s noSkip (varDefTree v) st = varDefRecs s st v := by
+    obs (ctxRecs s noSkip (varDefTree v) st) = varDefRecs s st v := by
   cases hd : v.default with
-  | none => simp [varDefTree, hd, ctxRecs, ctxRecsList, noSkip, varDefRecs, ctxStep]
-  | some dv => simp [varDefTree, hd, ctxRecs, ctxRecsList, noSkip, varDefRecs, ctxStep, ctxRecs_value]
+  | none => simp [varDefTree, hd, obs_node, nameOrTypeKind, obs_list_cons, obs_list_append, obs_name, obs_optType,
+      obs_list_nil, varDefRecs, ctxStep]
+  | some dv => simp [varDefTree, hd, obs_node, nameOrTypeKind, obs_list_cons, obs_list_append, obs_name, obs_optType,
+      obs_list_nil, varDefRecs, ctxStep, ctxRecs_value]
 
 mutual
 theorem ctxRecs_sel (s : Schema) : ∀ (x : Selection) (c : TCtx),
-    ctxRecs s noSkip (selTree x) (TIState.ofCtx c) = selRecs s c x
-  | .field _ nm args dirs sel lc, c => by
+    obs (ctxRecs s noSkip (selTree x) (TIState.ofCtx c)) = selRecs s c x
+  | .field al nm args dirs sel lc, c => by
     have h := ctxRecs_optSet s sel (c.enterField s nm.value)
     simp only [TIState.ofCtx] at h
-    simp [selTree, ctxRecs, noSkip, selRecs, ctxStep, TIState.ofCtx, ctxRecsList_append, ctxRecsList_map, ctxRecs_arg,
-      ctxRecs_dir, h]
-  | .spread _ dirs lc, c => by
-    simp [selTree, ctxRecs, noSkip, selRecs, ctxStep, ctxRecsList_map, ctxRecs_dir]
+    simp [selTree, obs_node, nameOrTypeKind, obs_list_cons, obs_list_append, obs_list_map, obs_optName, obs_name, selRecs,
+      ctxStep, TIState.ofCtx, ctxRecs_arg, ctxRecs_dir, h]
+  | .spread nm dirs lc, c => by
+    simp [selTree, obs_node, nameOrTypeKind, obs_list_cons, obs_list_map, obs_name, selRecs, ctxStep, ctxRecs_dir]
   | .inline tc dirs ss lc, c => by
     have h := ctxRecs_set s ss (c.enterInline s tc)
     simp only [TIState.ofCtx] at h
-    simp [selTree, ctxRecs, ctxRecsList, noSkip, selRecs, ctxStep, TIState.ofCtx, ctxRecsList_append, ctxRecsList_map,
-      ctxRecs_dir, h]
+    simp [selTree, obs_node, nameOrTypeKind, obs_list_cons, obs_list_append, obs_list_map, obs_optType, obs_list_nil,
+      selRecs, ctxStep, TIState.ofCtx, ctxRecs_dir, h]
 theorem ctxRecs_set (s : Schema) : ∀ (ss : SelectionSet) (c : TCtx),
-    ctxRecs s noSkip (setTree ss) (TIState.ofCtx c) = setRecs s c ss
+    obs (ctxRecs s noSkip (setTree ss) (TIState.ofCtx c)) = setRecs s c ss
   | .mk sels lc, c => by
     have h := ctxRecs_sels s sels (c.enterSelSet s)
     simp only [TIState.ofCtx] at h
-    simp [setTree, ctxRecs, noSkip, setRecs, ctxStep, TIState.ofCtx, h]
+    simp [setTree, obs_node, nameOrTypeKind, setRecs, ctxStep, TIState.ofCtx, h]
 theorem ctxRecs_optSet (s : Schema) : ∀ (o : Option SelectionSet) (c : TCtx),
-    ctxRecsList s noSkip (optSetTrees o) (TIState.ofCtx c) = optSetRecs s c o
-  | none, _ => by simp [optSetTrees, ctxRecsList, optSetRecs]
-  | some ss, c => by simp [optSetTrees, ctxRecsList, optSetRecs, ctxRecs_set s ss c]
+    obs (ctxRecsList s noSkip (optSetTrees o) (TIState.ofCtx c)) = optSetRecs s c o
+  | none, _ => by simp [optSetTrees, ctxRecsList, optSetRecs, obs_nil]
+  | some ss, c => by simp [optSetTrees, obs_list_cons, obs_list_nil, optSetRecs, ctxRecs_set s ss c]
 theorem ctxRecs_sels (s : Schema) : ∀ (xs : List Selection) (c : TCtx),
-    ctxRecsList s noSkip (selsTrees xs) (TIState.ofCtx c) = selsRecs s c xs
-  | [], _ => by simp [selsTrees, ctxRecsList, selsRecs]
-  | x :: xs, c => by simp [selsTrees, ctxRecsList, selsRecs, ctxRecs_sel s x c, ctxRecs_sels s xs c]
+    obs (ctxRecsList s noSkip (selsTrees xs) (TIState.ofCtx c)) = selsRecs s c xs
+  | [], _ => by simp [selsTrees, ctxRecsList, selsRecs, obs_nil]
+  | x :: xs, c => by simp [selsTrees, obs_list_cons, selsRecs, ctxRecs_sel s x c, ctxRecs_sels s xs c]
 end
 
 theorem ctxRecs_def (s : Schema) (df : Definition) (h : isExecDef df = true) :
-    ctxRecs s noSkip (defTree df) TIState.empty = defRecs s df := by
+    obs (ctxRecs s noSkip (defTree df) TIState.empty) = defRecs s df := by
   cases df with
   | operation op nm vars dirs sel lc =>
     have hs := ctxRecs_set s sel (TCtx.enterOp s op)
     simp only [TIState.ofCtx, TCtx.enterOp] at hs
-    simp [defTree, ctxRecs, ctxRecsList, noSkip, defRecs, ctxStep, TIState.empty, TIState.ofCtx, TCtx.enterOp,
-      ctxRecsList_append, ctxRecsList_map, ctxRecs_varDef, ctxRecs_dir, hs]
+    simp [defTree, obs_node, nameOrTypeKind, obs_list_cons, obs_list_append, obs_list_map, obs_optName, obs_list_nil,
+      defRecs, ctxStep, TIState.empty, TIState.ofCtx, TCtx.enterOp, ctxRecs_varDef, ctxRecs_dir, hs]
   | fragment nm tc dirs sel lc =>
     have hs := ctxRecs_set s sel (TCtx.enterFragment s tc)
     simp only [TIState.ofCtx, TCtx.enterFragment] at hs
-    simp [defTree, ctxRecs, ctxRecsList, noSkip, defRecs, ctxStep, TIState.empty, TIState.ofCtx, TCtx.enterFragment,
-      ctxRecsList_append, ctxRecsList_map, ctxRecs_dir, hs]
+    simp [defTree, obs_node, nameOrTypeKind, obs_list_cons, obs_list_append, obs_list_map, obs_name, obs_type, obs_list_nil, defRecs, ctxStep, TIState.empty, TIState.ofCtx, TCtx.enterFragment, ctxRecs_dir, hs]
   | _ => simp [isExecDef] at h
 
 theorem flatMap_congr' {α β : Type} (f g : α → List β) : ∀ (l : List α), (∀ x ∈ l, f x = g x) → l.flatMap f = l.flatMap g
@@ -475,13 +543,14 @@ theorem flatMap_congr' {α β : Type} (f g : α → List β) : ∀ (l : List α)
     rw [h x (by simp), flatMap_congr' f g l (fun y hy => h y (by simp [hy]))]
 
 theorem ctxRecs_docTree (s : Schema) (d : Document) (h : isExecDoc d = true) :
-    ctxRecs s noSkip (docTree d) TIState.empty = ⟨"Document", d.loc, TIState.empty⟩ :: tiRecords s d := by
-  have hd : ∀ df ∈ d.defs, ctxRecs s noSkip (defTree df) TIState.empty = defRecs s df := by
+    obs (ctxRecs s noSkip (docTree d) TIState.empty) = ⟨"Document", d.loc, TIState.empty⟩ :: tiRecords s d := by
+  have hd : ∀ df ∈ d.defs, obs (ctxRecs s noSkip (defTree df) TIState.empty) = defRecs s df := by
     intro df hm
     apply ctxRecs_def
     simp only [isExecDoc, List.all_eq_true] at h
     exact h df hm
-  simp only [docTree, ctxRecs, noSkip, Bool.false_eq_true, if_false, ctxStep, ctxRecsList_map, tiRecords]
+  rw [docTree, obs_node _ _ _ _ _ _ (by simp [nameOrTypeKind]), obs_list_map]
+  simp only [ctxStep, tiRecords]
   congr 1
   exact flatMap_congr' _ _ _ hd
 
